@@ -107,7 +107,7 @@ def _(c):
         c.ensure('aligned==plain-mode', val.eq(C, exp))
     c.ensure('second-enc', val.eq(c.call(type(o).enc, o, M), C))
 
-@obligation(P, 'modes/library-ciphers', cls='B', bound='SP 800-38A F.1/F.2/F.5 AES-128 vectors through the library AES, and one run per library cipher (round trip, lengths)', funcs=['crysp.mode.ECB.enc', 'crysp.mode.CBC.enc', 'crysp.mode.CTR.enc'],
+@obligation(P, 'modes/library-ciphers', cls='B', native=True, bound='SP 800-38A F.1/F.2/F.5 AES-128 vectors through the library AES, and one run per library cipher (round trip, lengths)', funcs=['crysp.mode.ECB.enc', 'crysp.mode.CBC.enc', 'crysp.mode.CTR.enc'],
             cases={'cipher': ['AES128', 'AES192', 'AES256', 'DES', 'TDEA', 'Serpent', 'Threefish256', 'Threefish512', 'Threefish1024']})
 def _(c):
     from crysp.aes import AES
